@@ -563,3 +563,19 @@ class WalkUsb3Crc32(Sub):
 SUBS = [Crc5Exhaustive(), TokenAccept(), StepBasis(), StepRandom(), Usb2Crc16Exhaustive(), Usb2Crc16Stripe(),
         WalkUsb2Crc16(),
         WalkUsb3Crc16(), WalkUsb3Crc32()]
+
+
+# ---------------------------------------------------------------------------------------------------------------
+# "... so a packet is accepted exactly when its check field is correct": the USB2 data-packet receiver is the consumer
+# of the CRC16; its acceptance (packet_complete vs crc_mismatch, under rx_valid gaps at any byte position) is C02's
+# subject and is reused here with a smaller budget, so that a sequential fault around an untouched CRC equation
+# (e.g. the running CRC captured in the wrong cycle) is also seen from C30.
+from lunaverif.props.c02 import Receiver as _C02Receiver
+
+
+class Usb2DataAccept(_C02Receiver):
+    name = "usb2-data-accept"
+    budget = {"quick": 2500, "thorough": 40000}
+
+
+SUBS.append(Usb2DataAccept())
